@@ -30,17 +30,17 @@ if echo "$out" | grep -q "^error\(\[E\|: could not compile\)"; then echo "REJECT
 failed=$(echo "$out" | grep -E "^test .* FAILED$" | sed 's/^test //; s/ \.\.\. FAILED//' | sort -u)
 suite_failed=$(echo "$failed" | grep -v "^$" | grep -v "test_non_perturbed_z" | grep -vE "^(demo|test_demo|.*demo)" || true)
 # tests of the demo file are the ones listed in its own "Running tests/demo_" section
-demo_section=$(echo "$out" | awk '/Running tests\/demo_/{f=1} f{print} /^test result/{if(f){exit}}')
+demo_section=$(echo "$out" | awk '/Running tests\/demo_/{f=1} f{print} /^test result:/{if(f){exit}}')
 demo_failed=$(echo "$demo_section" | grep -cE "^test .* FAILED$")
 if [ "$DEMOFEAT" != "$FEAT" ]; then demo_failed=$(echo "$outd" | grep -cE "^test .* FAILED$"); fi
-lib_line=$(echo "$out" | grep -E "^test result" | head -1)
+lib_line=$(echo "$out" | grep -E "^test result:" | head -1)
 echo "  with change: lib: $lib_line"
 echo "  with change: demo failures: $demo_failed"
 others=$(echo "$out" | awk '/Running tests\/demo_/{f=1} /Running/{ if ($0 !~ /demo_/) f=0 } !f{print}' | grep -E "^test .* FAILED$" | grep -v test_non_perturbed_z || true)
 git checkout -- .
 out2=$(cargo test --offline --no-fail-fast $DEMOFEAT --test "demo_$NAME" 2>&1)
 clean_failed=$(echo "$out2" | grep -cE "^test .* FAILED$")
-clean_passed=$(echo "$out2" | grep -E "^test result" | head -1)
+clean_passed=$(echo "$out2" | grep -E "^test result:" | head -1)
 echo "  without change: demo: $clean_passed"
 rm -f "tests/demo_$NAME.rs"
 if [ -n "$others" ]; then echo "REJECTED $NAME: existing tests fail with the change: $others"; exit 1; fi
